@@ -191,6 +191,39 @@ def run(ctx):
                                   a=[str(a1), str(a2)], b=[str(b1), str(b2)], k=k, r=r, got=[str(complex(R.z1)), str(complex(R.z2))],
                                   expected=[str(complex(e[0])), str(complex(e[1]))], rel_error=float(err))
                     break
+        # arrays are handled elementwise, also when one element is a zero divisor (x + ih + jh at x = 0 has mod_c = 0 and takes the
+        # idempotent branch of **): every element of the array result equals the scalar result for that element, all four components
+        for it in range(budget):
+            hh = 10.0 ** rng.uniform(-8, -2)
+            xs = [rng.uniform(-2, 2) for _ in range(rng.randint(1, 4))]
+            xs.insert(rng.randrange(len(xs) + 1), 0.0)
+            shape2 = rng.random() < 0.3 and len(xs) % 2 == 0
+            za = np.array([complex(v, hh) for v in xs])
+            zb = np.full(len(xs), hh, dtype=complex)
+            if shape2:
+                za, zb = za.reshape(2, -1), zb.reshape(2, -1)
+            ex = rng.choice([2, 3, 4, 2.0, 5, np.int64(3)])
+            ctx.tried(('pow-array-with-zero-divisor', tuple(xs), hh, str(ex)))
+            try:
+                RA = Bicomplex(za, zb) ** ex
+                ok = True
+                for idx in np.ndindex(za.shape):
+                    RS = Bicomplex(za[idx], zb[idx]) ** ex
+                    a = np.array([complex(np.asarray(RA.z1)[idx]), complex(np.asarray(RA.z2)[idx])])
+                    b = np.array([complex(np.ravel(RS.z1)[0]), complex(np.ravel(RS.z2)[0])])
+                    comp_a = np.array([a[0].real, a[0].imag, a[1].real, a[1].imag])
+                    comp_b = np.array([b[0].real, b[0].imag, b[1].real, b[1].imag])
+                    if np.any(np.abs(comp_a - comp_b) > 1e-12 * (np.abs(comp_b) + 1e-300)):
+                        ctx.violation('Bicomplex ** is not elementwise on an array that contains a zero divisor: an element differs from the scalar result',
+                                      x=xs, h=hh, exponent=str(ex), index=list(idx), array_element=[str(a[0]), str(a[1])],
+                                      scalar_result=[str(b[0]), str(b[1])])
+                        ok = False
+                        break
+                if not ok:
+                    break
+            except Exception as ex_:
+                ctx.violation('Bicomplex ** raised %r on an array containing a zero divisor' % ex_, x=xs, h=hh, exponent=str(ex))
+                break
         # compositions and the derivative-extraction the multicomplex method relies on
         comp = [n_ for n_ in names if n_ not in ('arccosh',)]
         for it in range(budget * 3):
